@@ -112,6 +112,7 @@ type Structural struct {
 	Text    string
 	File    string
 	Line    int
+	Nowhere bool // `in nowhere`: no site may exist in the package
 }
 
 type Hook struct {
@@ -249,7 +250,9 @@ func (cs *ContractSet) parseLines(lines []string, pkgPath, pkgName, file string,
 			}
 			sd.Kind, sd.Target = head[0], head[1]
 			for _, f := range strings.Split(body[j+4:], "|") {
-				if f = strings.TrimSpace(f); f != "" {
+				if f = strings.TrimSpace(f); f == "nowhere" {
+					sd.Nowhere = true // the package must have no such site at all
+				} else if f != "" {
 					sd.In = append(sd.In, f)
 				}
 			}
